@@ -189,7 +189,7 @@ NOT_YET = {
 }
 
 
-RECORDED = {"C01", "C02", "C03", "C04", "C05", "C06", "C08", "C11", "C15", "C16", "C17", "C19"}   # keep in step with check.RECORDED
+RECORDED = {"C01", "C02", "C03", "C04", "C05", "C06", "C08", "C10", "C11", "C13", "C14", "C15", "C16", "C17", "C18", "C19"}   # keep in step with check.RECORDED
 
 
 def main():
